@@ -10,9 +10,11 @@ decimal instance `Exact.numIn` shows what the property demands, and the
 correspondence ties the binary64 instance to the Go code.
 -/
 import XlModel.Lemmas.NumFmt
+import XlModel.Lemmas.NumFmtSerial
+import XlModel.Lemmas.NumFmtLit
 
 namespace XlModel.Props.C10
-open XlModel XlModel.NumFmt
+open XlModel XlModel.NumFmt XlModel.Date XlModel.Date.Impl
 
 /-! ## facts the model is defined over -/
 
@@ -290,5 +292,271 @@ theorem finding_ampm_split_unguarded :
         ⟨"DateTimes", bs "h", []⟩]⟩] ['1'] true (bigLayer "1" "100" 1)
       { noDate with t0 := ⟨1900, 1, 1, 13, 0, 0, 0, 0⟩, loc0 := fun _ => ⟨true, bs "noslash", [], [], [], [], [], false⟩ } = .panic := by
   decide +kernel
+
+/-! ## totality at full strength -/
+
+/-- every AM/PM pattern a language-table entry can carry (regenerated from the `apFmt:` fields of
+numfmt.go, 398 fields) contains the '/' that `strings.Split(_, "/")[1]` needs -/
+theorem apfmt_table_ok : Facts.C10.apFmtFields = 398 ∧ ∀ s ∈ Facts.C10.apFmts, '/' ∈ bytesOf s := by
+  decide +kernel
+
+/-- a locale row whose pattern is in the regenerated table satisfies the data predicate -/
+theorem apOK_of_table (l : Locale) (h : l.ok = true → ∃ s ∈ Facts.C10.apFmts, l.apFmt = bytesOf s) : ApOK l := by
+  intro hok
+  obtain ⟨s, hs, he⟩ := h hok
+  rw [he]
+  exact apfmt_table_ok.2 s hs
+
+/-- `format` has no panic outcome for EVERY section list, value, cell type and number layer —
+date/time tokens included — under the data predicate `DateOK`: `strconv.Itoa(year)` has two
+characters for the instants read, and the AM/PM pattern of every supported locale contains '/' -/
+theorem format_total (secs : List Sec) (value : Str) (cn : Bool) (n : NumIn) (d : DateIn) (h : DateOK d) :
+    format secs value cn n d ≠ .panic :=
+  format_ne_panic secs value cn n d h
+
+/-- the data predicate holds for every stored number the decoder accepts: any rational within C19's
+decoding tolerance of a non-negative serial `D + k/86400`, both date systems, with locale rows drawn
+from the regenerated table.  (Real serials give years ≥ 1600; `t+1s` is covered as the next second.) -/
+theorem dateOK_of_serial (x : Rat) (s : Bool) (D k : Int) (hD0 : 0 ≤ D) (hk0 : 0 ≤ k) (hk : k < 86400)
+    (hx : |x - ((D : Rat) + (k : Rat) / 86400)| ≤ decTol D) (loc0 loc1 : Str → Locale)
+    (hl : ∀ c, ApOK (loc0 c) ∧ ApOK (loc1 c)) :
+    DateOK (dateInOfSerial x s loc0 loc1) := by
+  have hdec := decode_both x s D k hD0 hk0 hk hx
+  unfold dateInOfSerial
+  simp only [hdec]
+  refine ⟨?_, ?_, hl⟩
+  · rw [timeFOfInstant_eval s D k hk0 hk]
+    apply yearOK_of_ge
+    have := year_ge_1600 s D hD0
+    simp only [civilTimeF]; omega
+  · -- one second later: same day, or second 0 of the next day
+    have hns : nsPerSec = 1000000000 := by decide
+    rw [hns]
+    by_cases hlast : k + 1 < 86400
+    · have he : (if s then epoch1904 else epoch1900) + (D * 86400000000000 + k * 1000000000) + 1000000000
+          = (if s then epoch1904 else epoch1900) + (D * 86400000000000 + (k + 1) * 1000000000) := by omega
+      rw [he, timeFOfInstant_eval s D (k + 1) (by omega) hlast]
+      apply yearOK_of_ge
+      have := year_ge_1600 s D hD0
+      simp only [civilTimeF]; omega
+    · have he : (if s then epoch1904 else epoch1900) + (D * 86400000000000 + k * 1000000000) + 1000000000
+          = (if s then epoch1904 else epoch1900) + ((D + 1) * 86400000000000 + 0 * 1000000000) := by omega
+      rw [he, timeFOfInstant_eval s (D + 1) 0 (by omega) (by omega)]
+      apply yearOK_of_ge
+      have := year_ge_1600 s (D + 1) (by omega)
+      simp only [civilTimeF]; omega
+
+/-! ## date/time fields (clause "rendered year, month, day, hour, minute and second are those of
+the serial's calendar instant") -/
+
+def dtTok (s : List Char) : Tok := ⟨"DateTimes", s, []⟩
+def litTok (s : List Char) : Tok := ⟨"Literal", s, []⟩
+def elTok (s : List Char) : Tok := ⟨"ElapsedDateTimes", s, []⟩
+
+/-- `yyyy-mm-dd hh:mm:ss` as nfp tokenises it -/
+def isoItems : List Tok := [dtTok ['y','y','y','y'], litTok ['-'], dtTok ['m','m'], litTok ['-'], dtTok ['d','d'], litTok [' '],
+  dtTok ['h','h'], litTok [':'], dtTok ['m','m'], litTok [':'], dtTok ['s','s']]
+
+/-- every field token of `yyyy-mm-dd hh:mm:ss` prints the decimal of the corresponding field of
+`nf.t` (the first `mm` is the month, the second the minute), for every instant -/
+theorem iso_fields_rendered (value : Str) (d : DateIn) (hn : d.t0.nano < 500000000) :
+    dateTimeHandler isoItems value false d =
+      .ok (itoaInt d.t0.year ++ ['-'] ++ pad2 d.t0.month ++ ['-'] ++ pad2 d.t0.day ++ [' '] ++
+        pad2 d.t0.hour ++ [':'] ++ pad2 d.t0.minute ++ [':'] ++ pad2 d.t0.second) := by
+  have hl : ¬ (d.t0.nano ≥ 500000000) := by omega
+  simp [dateTimeHandler, hl, isoItems, enum, List.range_succ, dtLoop, dtTok, litTok, dateTimesHandler, inFold, amPm,
+    upper, upC, isLo, tokHas, hasC, isMonthToken, timePrevious, secondsNext, apNext, apNextAux]
+
+/-- date_fields_correct: for every stored number within C19's decoding tolerance of the serial
+`D + k/86400` (D ≥ 0, k a second of the day), in both date systems, `yyyy-mm-dd hh:mm:ss` renders
+the civil date of day `D` after the system's epoch (C19's `civilFromDays`) and the clock reading
+`k/3600 : k%3600/60 : k%60` -/
+theorem date_fields_correct (x : Rat) (s : Bool) (D k : Int) (hD0 : 0 ≤ D) (hk0 : 0 ≤ k) (hk : k < 86400)
+    (hx : |x - ((D : Rat) + (k : Rat) / 86400)| ≤ decTol D) (value : Str) (loc0 loc1 : Str → Locale) :
+    dateTimeHandler isoItems value false (dateInOfSerial x s loc0 loc1) =
+      .ok (itoaInt (civilFromDays (epochDay s + D)).1 ++ ['-'] ++ pad2 (civilFromDays (epochDay s + D)).2.1.toNat ++ ['-'] ++
+        pad2 (civilFromDays (epochDay s + D)).2.2.toNat ++ [' '] ++ pad2 (k / 3600).toNat ++ [':'] ++
+        pad2 (k % 3600 / 60).toNat ++ [':'] ++ pad2 (k % 60).toNat) := by
+  have hdec := decode_both x s D k hD0 hk0 hk hx
+  have ht0 : (dateInOfSerial x s loc0 loc1).t0 = civilTimeF s D k := by
+    unfold dateInOfSerial; simp only [hdec]; exact timeFOfInstant_eval s D k hk0 hk
+  rw [iso_fields_rendered value _ (by rw [ht0]; simp [civilTimeF]), ht0]
+  rfl
+
+/-! ## 12-hour forms (clause "12-hour AM/PM … consistent with the 24-hour value") -/
+
+/-- the 12-hour reading of an hour 0..23 -/
+def h12 (h : Nat) : Nat := if h % 12 = 0 then 12 else h % 12
+def apOf (h : Nat) : Str := if h ≥ 12 then ['P', 'M'] else ['A', 'M']
+
+/-- the pair (12-hour reading, AM/PM) determines the 24-hour value -/
+theorem h12_consistent (h : Nat) (hh : h < 24) :
+    1 ≤ h12 h ∧ h12 h ≤ 12 ∧ h12 h % 12 + (if h ≥ 12 then 12 else 0) = h := by
+  unfold h12; split <;> split <;> omega
+
+/-- `h:mm AM/PM` (marker after the hour), default locale -/
+def apAfterItems : List Tok := [dtTok ['h'], litTok [':'], dtTok ['m','m'], litTok [' '], dtTok ['A','M','/','P','M']]
+/-- `AM/PM h:mm` (marker before the hour: the class of the seeded change C10a/1 and of fix 18fb37c) -/
+def apBeforeItems : List Tok := [dtTok ['A','M','/','P','M'], litTok [' '], dtTok ['h'], litTok [':'], dtTok ['m','m']]
+
+theorem ampm_consistent_after (value : Str) (d : DateIn) (hn : d.t0.nano < 500000000) (hh : d.t0.hour < 24)
+    (hloc : (d.loc0 []).ok = false) :
+    dateTimeHandler apAfterItems value false d =
+      .ok (itoa (h12 d.t0.hour) ++ [':'] ++ pad2 d.t0.minute ++ [' '] ++ apOf d.t0.hour) := by
+  have hl : ¬ (d.t0.nano ≥ 500000000) := by omega
+  have fin : ∀ a b : Nat, a = b → itoa a = itoa b := fun _ _ h => by rw [h]
+  by_cases hc : 12 ≤ d.t0.hour
+  · simp [dateTimeHandler, hl, apAfterItems, enum, List.range_succ, dtLoop, dtTok, litTok, dateTimesHandler, inFold, amPm,
+      upper, upC, isLo, tokHas, hasC, isMonthToken, timePrevious, secondsNext, apNext, apNextAux, hoursNext, apParts, hloc,
+      splitC, hc, apOf]
+    apply fin
+    unfold h12
+    split_ifs <;> omega
+  · simp [dateTimeHandler, hl, apAfterItems, enum, List.range_succ, dtLoop, dtTok, litTok, dateTimesHandler, inFold, amPm,
+      upper, upC, isLo, tokHas, hasC, isMonthToken, timePrevious, secondsNext, apNext, apNextAux, hoursNext, apParts, hloc,
+      splitC, hc, apOf]
+    apply fin
+    unfold h12
+    split_ifs <;> omega
+
+theorem ampm_consistent_before (value : Str) (d : DateIn) (hn : d.t0.nano < 500000000) (hh : d.t0.hour < 24)
+    (hloc : (d.loc0 []).ok = false) :
+    dateTimeHandler apBeforeItems value false d =
+      .ok (apOf d.t0.hour ++ [' '] ++ itoa (h12 d.t0.hour) ++ [':'] ++ pad2 d.t0.minute) := by
+  have hl : ¬ (d.t0.nano ≥ 500000000) := by omega
+  have fin : ∀ a b : Nat, a = b → itoa a = itoa b := fun _ _ h => by rw [h]
+  by_cases hc : 12 ≤ d.t0.hour
+  · simp [dateTimeHandler, hl, apBeforeItems, enum, List.range_succ, dtLoop, dtTok, litTok, dateTimesHandler, inFold, amPm,
+      upper, upC, isLo, tokHas, hasC, isMonthToken, timePrevious, secondsNext, apNext, apNextAux, hoursNext, apParts, hloc,
+      splitC, hc, apOf]
+    apply fin
+    unfold h12
+    split_ifs <;> omega
+  · simp [dateTimeHandler, hl, apBeforeItems, enum, List.range_succ, dtLoop, dtTok, litTok, dateTimesHandler, inFold, amPm,
+      upper, upC, isLo, tokHas, hasC, isMonthToken, timePrevious, secondsNext, apNext, apNextAux, hoursNext, apParts, hloc,
+      splitC, hc, apOf]
+    apply fin
+    unfold h12
+    split_ifs <;> omega
+
+/-! ## elapsed forms (clause "elapsed [h]/[m]/[s] forms consistent with the 24-hour value") -/
+
+def elapsedItems : List Tok := [elTok ['h'], litTok [':'], dtTok ['m','m'], litTok [':'], dtTok ['s','s']]
+
+/-- `[h]:mm:ss` prints whole elapsed hours, then the minute and second of `nf.t` -/
+theorem elapsed_rendered (value : Str) (d : DateIn) (hn : d.t0.nano < 500000000) :
+    dateTimeHandler elapsedItems value false d =
+      .ok (itoaInt (d.t0.elapsedSec.tdiv 3600) ++ [':'] ++ pad2 d.t0.minute ++ [':'] ++ pad2 d.t0.second) := by
+  have hl : ¬ (d.t0.nano ≥ 500000000) := by omega
+  simp [dateTimeHandler, hl, elapsedItems, enum, List.range_succ, dtLoop, dtTok, litTok, elTok, dateTimesHandler, inFold, amPm,
+    upper, upC, isLo, tokHas, hasC, isMonthToken, timePrevious, secondsNext, elapsed]
+
+/-- elapsed_consistent: for the fields of a serial `D + k/86400` (either date system) the three
+elapsed counts and the clock fields denote the same instant: `[h]·3600 + mm·60 + ss = [s]`,
+`[m] = [h]·60 + mm`, `[h] mod 24 = hh`, and `[s]` is the serial in seconds -/
+theorem elapsed_consistent (s : Bool) (D k : Int) (hD0 : 0 ≤ D) (hk0 : 0 ≤ k) (hk : k < 86400) :
+    let t := civilTimeF s D k
+    t.elapsedSec = D * 86400 + k ∧
+    t.elapsedSec.tdiv 3600 * 3600 + (t.minute : Int) * 60 + (t.second : Int) = t.elapsedSec ∧
+    t.elapsedSec.tdiv 60 = t.elapsedSec.tdiv 3600 * 60 + (t.minute : Int) ∧
+    (t.elapsedSec.tdiv 3600) % 24 = (t.hour : Int) := by
+  intro t
+  have he : t.elapsedSec = D * 86400 + k := rfl
+  have hm : (t.minute : Int) = k % 3600 / 60 := by show ((k % 3600 / 60).toNat : Int) = _; omega
+  have hs : (t.second : Int) = k % 60 := by show ((k % 60).toNat : Int) = _; omega
+  have hh : (t.hour : Int) = k / 3600 := by show ((k / 3600).toNat : Int) = _; omega
+  have hpos : 0 ≤ D * 86400 + k := by omega
+  rw [he, hm, hs, hh, Int.tdiv_eq_ediv_of_nonneg hpos, Int.tdiv_eq_ediv_of_nonneg hpos]
+  refine ⟨rfl, ?_, ?_, ?_⟩ <;> omega
+
+/-! ## accuracy of the RENDERED text: digit preservation through printNumberLiteral -/
+
+/-- handleDigitsLiteral's slices tile the pre-formatted text: for every token list with at least one
+placeholder token (`0`, `#`, `?` runs of any lengths, any literals in between) and every text, the
+concatenated emissions are the text itself — nothing dropped, duplicated or reordered -/
+theorem digits_preserved (items : List Tok) (text : Str) (h : items.any isPlaceholder = true) :
+    emitted items text = text :=
+  emitted_eq_text items text h
+
+/-- … hence the digits and the decimal point of the final string are those of the pre-formatted
+text (minus sign, digit-free literals, colours, alignment in between) -/
+theorem rendered_digits (items : List Tok) (up : Bool) (text : Str)
+    (hph : items.any isPlaceholder = true) (hpl : PlainLits items) :
+    digitsOf (printNumberLiteral items up text) = digitsOf text :=
+  printNumberLiteral_digits items up text hph hpl
+
+/-- the thousands loop changes no digit -/
+theorem comma_digits (s : Str) (f : Bool) : digitsOf (commaLoop f s) = digitsOf s :=
+  commaLoop_digits s f
+
+theorem percents_no_digits (n : Nat) : digitsOf (percents n) = [] := by
+  induction n with
+  | zero => rfl
+  | succ k ih =>
+    unfold percents at ih ⊢
+    rw [List.replicate_succ]
+    show digitsOf (['%'] ++ List.replicate k '%') = []
+    rw [digitsOf_append, ih]; decide
+
+/-- round_error_bound for the rendered text, and the exact class of (value, code) pairs for which it
+holds on the current code: the selected section has a placeholder, digit-free literals, no
+fraction/switch token, no exponent token, no thousands separator, and the value does NOT take the
+big-number path (`isNum ∧ precision > 15 ∧ intLen+fracLen > 15`, the class of the two open
+`accuracy:over15digits:*` findings).  Then numberHandler returns a string whose digits and point
+are exactly those of `Sprintf("%0w.{d}f")` of the number layer — percent scaling included in
+`fixed pct d` — so with the exact layer they are the zero-padded digits of the integer `k` of
+`round_error_bound_exact`. -/
+theorem round_error_bound_rendered (items : List Tok) (value : Str) (up : Bool) (n : NumIn)
+    (hph : items.any isPlaceholder = true) (hpl : PlainLits items)
+    (hun : hasUnmodelled items = false)
+    (hsci : (getConf items).useSci = false) (hcomma : (getConf items).useCommaSep = false)
+    (hbig : ¬ (n.isNum = true ∧ n.precision > bigPrecision ∧
+        (partLen (getConf items) n.absShort).1 + (partLen (getConf items) n.absShort).2 > bigLen)) :
+    ∃ s, numberHandler items value up n = .ok s ∧
+      digitsOf s = digitsOf (padLeft
+        ((partLen (getConf items) n.absShort).1 + (partLen (getConf items) n.absShort).2 +
+          (if (partLen (getConf items) n.absShort).2 > 0 then 1 else 0))
+        (n.fixed (getConf items).percent (partLen (getConf items) n.absShort).2)) := by
+  unfold numberHandler
+  simp only [hun, Bool.false_eq_true, if_false]
+  have hb : ¬ (n.isNum = true ∧ n.precision > bigPrecision ∧
+      (partLen (getConf items) n.absShort).1 + (partLen (getConf items) n.absShort).2 > bigLen ∧ (!(getConf items).useSci) = true) := by
+    intro h; exact hbig ⟨h.1, h.2.1, h.2.2.1⟩
+  simp only [hsci, hcomma, Bool.false_eq_true, if_false]
+  rw [hsci] at hb
+  rw [if_neg hb]
+  refine ⟨_, rfl, ?_⟩
+  rw [rendered_digits _ _ _ hph hpl, digitsOf_append, percents_no_digits, List.append_nil]
+
+/-- the exact layer plugged in: the rendered digits are those of `k` printed with `d` decimals,
+`k` within half a unit of `|x|·100^pct·10^d` (`round_error_bound_exact`) -/
+theorem exact_layer_fixed (x : Exact.Dec) (pct d : Nat) :
+    (Exact.numIn x).fixed pct d = Exact.renderFixed (Exact.scaledRound x pct d) d := rfl
+
+/-! ## for which classes the section clause holds -/
+
+/-- section clause, exact boundary on the current code: for positional sections the model's choice
+equals Excel's rule IF AND ONLY IF the value is not (zero with three or more sections) -/
+theorem section_select_iff (secs : List Sec) (h : WellTyped secs) (c : Spec.Cls) :
+    modelSelect secs c = Spec.sectionFor secs.length c ↔ ¬ (c = .zero ∧ 3 ≤ secs.length) := by
+  constructor
+  · intro he hc
+    obtain ⟨hz, hl⟩ := hc
+    subst hz
+    obtain ⟨ht, hl4⟩ := h
+    match secs, ht, hl, hl4 with
+    | [a, b, d], ht, _, _ =>
+      simp [positional] at ht
+      obtain ⟨ha, hb, hd⟩ := ht
+      simp_all [modelSelect, clsFlags, valueSectionType, selectSection, enum, Spec.sectionFor, List.range_succ]
+    | [a, b, d, e], ht, _, _ =>
+      simp [positional] at ht
+      obtain ⟨ha, hb, hd, he'⟩ := ht
+      simp_all [modelSelect, clsFlags, valueSectionType, selectSection, enum, Spec.sectionFor, List.range_succ]
+  · intro hn
+    apply section_select_partial secs h c
+    by_cases hc : c = .zero
+    · right; have : ¬ 3 ≤ secs.length := fun h3 => hn ⟨hc, h3⟩; omega
+    · left; exact hc
 
 end XlModel.Props.C10
